@@ -339,6 +339,12 @@ def _keyhash(model, rep, mod):
             if d in ('round', 'around', 'rint', 'floor', 'ceil', 'trunc', 'astype', 'fix', 'digitize', 'float32', 'float16',
                      'int', 'int_', 'int64', 'int32'):
                 lossy.append(d)
+    # a generic spelling over the tuple itself -- [entry.data.tobytes() for entry in self] -- covers every field
+    for n in ast.walk(h):
+        if isinstance(n, (ast.ListComp, ast.GeneratorExp)) and unparse(n.generators[0].iter) == 'self' and not n.generators[0].ifs:
+            v = unparse(n.generators[0].target)
+            if unparse(n.elt) in ('%s.data.tobytes()' % v, '%s.tobytes()' % v):
+                exact |= set(ci.namedtuple_fields)
     for f in ci.namedtuple_fields:
         ok = f in exact and not lossy
         rep.ob('cache-key-exact-hash', mod, h, 'vacancyThermoKinetics.__hash__ covers the exact bytes of %s' % f, ok,
